@@ -17,8 +17,9 @@ enum Mode {
     PureAbsolute,
     PureRelative,
     Vector,
+    VectorAtol,
 }
-const MODES: [Mode; 4] = [Mode::Mixed, Mode::PureAbsolute, Mode::PureRelative, Mode::Vector];
+const MODES: [Mode; 5] = [Mode::Mixed, Mode::PureAbsolute, Mode::PureRelative, Mode::Vector, Mode::VectorAtol];
 
 #[derive(Clone, Copy, Debug, PartialEq)]
 enum Dir {
@@ -78,6 +79,17 @@ fn tolerances(mode: Mode, tol: f64, n: usize, yscale: f64) -> Option<(Tol, Tol)>
             // per-component tolerances differing by 1e4, kept inside [1e-11, 1e-3]
             let r: Vec<f64> = (0..n).map(|i| if i % 2 == 0 { tol } else { (tol * 1e-4).max(1e-11).min(tol) }).collect();
             let a: Vec<f64> = r.iter().map(|x| 1e-2 * x * yscale).collect();
+            (Tol::V(r), Tol::V(a))
+        }
+        Mode::VectorAtol => {
+            if n < 2 {
+                return None;
+            }
+            // a common tight rtol and per-component atol with different atol/rtol ratios: the even
+            // components are governed by a loose atol, the odd ones by one 1e6 times tighter
+            let tight = (tol * 1e-6).max(1e-11);
+            let r: Vec<f64> = vec![tight; n];
+            let a: Vec<f64> = (0..n).map(|i| if i % 2 == 0 { tol * yscale } else { tight * yscale }).collect();
             (Tol::V(r), Tol::V(a))
         }
     })
@@ -221,7 +233,7 @@ pub fn run_check(replay: Option<Value>) -> i32 {
         for i in 0..worst.len() - 1 {
             // in vector mode the tighter components saturate at 1e-11: only ladder steps that tighten
             // every component by 100x are a tightening in the sense of the property
-            if job.mode == Mode::Vector && LADDER[i + 1] * 1e-4 < 1e-11 {
+            if (job.mode == Mode::Vector && LADDER[i + 1] * 1e-4 < 1e-11) || (job.mode == Mode::VectorAtol && LADDER[i + 1] * 1e-6 < 1e-11) {
                 continue;
             }
             if worst[i].is_finite() && worst[i + 1].is_finite() && worst[i + 1] > 5.0 * worst[i] {
@@ -428,7 +440,7 @@ pub fn run_check(replay: Option<Value>) -> i32 {
     rep.require("ladder", 500);
     rep.require("rk4-convergence", 10);
     rep.require("rk4-convergence-t-eval", 10);
-    rep.rule = "every (method, problem variant, direction, initial-state scale, tolerance mode, t_eval) is run over the whole tolerance ladder; oracle: every component of every returned sample within K*kappa*max(1,naccpt)*(atol_i+rtol_i*Y(t)) of the closed form (K=50, kappa = conditioning from the closed-form flow, configurations with kappa>20 skipped and counted, rounding floor 64 eps scale sqrt(nfev)); tightening 100x never increases the worst error more than 5x; RK4: observed global order >= 3.6; thorough: dissipative polynomial fields against an independent extrapolated RK4 reference; distinct = distinct ladders".into();
-    rep.assumptions.push("|y| is read as the max norm for coupled systems; a run that ends without Success is counted, not judged (the property speaks about returned samples), unless a whole tolerance mode never succeeds".into());
+    rep.rule = "every (method, problem variant, direction, initial-state scale, tolerance mode incl. per-component rtol and per-component atol with differing atol/rtol ratios, time origin, t_eval) is run over the whole tolerance ladder; oracle: every component of every returned sample within K*kappa*max(1,naccpt)*(atol_i+rtol_i*Y(t)) of the closed form (K=50, kappa = conditioning from the closed-form flow, configurations with kappa>20 skipped and counted, rounding floor 64 eps scale sqrt(nfev)); tightening 100x never increases the worst error more than 5x; RK4: observed global order >= 3.6; thorough: dissipative polynomial fields against an independent extrapolated RK4 reference; distinct = distinct ladders".into();
+    rep.assumptions.push("|y| is read as the max norm for coupled systems; a run of the alphabet that ends without Success is a violation (not-solved; whole mode failing: mode-unsupported): these are smooth well-conditioned problems at tolerances inside the stated range, also with the time origin shifted to x0 = 50.2".into());
     rep.finish()
 }
